@@ -50,6 +50,14 @@ def gen_cases(rng, tier):
             alpha = ALPHA + 'U'          # mixed T and U
         s = ''.join(rng.choice(alpha) for _ in range(n))
         cases.append({'op': rng.choice(list(OPS)), 's': s, 'basket': rng.random() < 0.3, 'ufts': rng.random() < 0.3})
+    # sizes beyond plausible internal chunk limits (2^16, 2^17): a plain ACGTN prefix, ambiguity codes / U only far downstream
+    for n, tail in ((65600, 'RYKMBDHV.-'), (66000, 'UUBDHV')):
+        pre_ = ''.join(rng.choice('ACGTN') for _ in range(997)) * (n // 997)
+        body = pre_ + tail if 'U' not in tail else pre_.replace('T', 'A') + tail
+        cases.append({'op': 'rc', 's': body, 'basket': False})
+        if tier == 'thorough':
+            cases.append({'op': 'complement', 's': body, 'basket': True})
+            cases.append({'op': 'rc', 's': pre_ + pre_ + tail, 'basket': True})
     # history stream: the object is built from one string and edited in place (alphabet switched, residues assigned,
     # copied) before the operation; baskets with several sequences incl. a sequence next to its own reverse complement
     nhist = 3000 if tier == 'thorough' else 400
@@ -163,7 +171,8 @@ def impl(case):
 
 
 def model_term(case):
-    return 'out (run_C05 %s %s)' % (coq_N(OPS[case['op']]), coq_bs(cur(case)))
+    fn = 'run_C05_lin' if len(cur(case)) > 20000 else 'run_C05'      # C05_lin_eval: the same function
+    return 'out (%s %s %s)' % (fn, coq_N(OPS[case['op']]), coq_bs(cur(case)))
 
 
 def spec(case, got):
